@@ -962,10 +962,10 @@ def kinds_for(src, dialect):
     """solved ActionKinds of one dialect, memoised per SourceSet"""
     from .grammar import load_dialect
     from .pymodel import model_for
-    key = (id(src), dialect)
-    if key not in _ak_cache or _ak_cache[key][0] is not src:
-        g = load_dialect(src, dialect)
-        ak = ActionKinds(g, model_for(src))
+    from .source import memo_on
+
+    def build():
+        ak = ActionKinds(load_dialect(src, dialect), model_for(src))
         ak.solve()
-        _ak_cache[key] = (src, ak)
-    return _ak_cache[key][1]
+        return ak
+    return memo_on(src, ('kinds', dialect), build)
